@@ -129,3 +129,20 @@ contract(P + "DecayMode.from_dict", types={D: "dict"},
                   f"implies(not dhas({D}, 'model_params'), dget(result.metadata, 'model_params') == '')"],
          raises={"RuntimeError": f"not (dhas({D}, 'bf') and dhas({D}, 'fs'))"},
          returns="obj:DecayMode", properties=["C11"])
+
+# ---- DecayChain: the accessors (C11/C12 read the chain through them) ---------------------------------------------------
+CHAIN_INV = ["typ(self.decays, 'dict')", "dhas(self.decays, self.mother)", "typ(dget(self.decays, self.mother), 'obj:DecayMode')"]
+
+contract(P + "DecayChain.__init__", types={"mother": "str", "decays": "dict"}, requires=[],
+         ensures=["same(self.mother, mother)", "same(self.decays, decays)", "dhas(decays, mother)"],
+         raises={"RuntimeError": "not dhas(decays, mother)"},
+         modifies=["self"], modifies_fields=["mother", "decays"], returns="none", properties=["C11", "C12"])
+
+contract(P + "DecayChain.top_level_decay", requires=CHAIN_INV,
+         ensures=["same(result, dget(self.decays, self.mother))"], returns="obj:DecayMode", properties=["C11", "C12"])
+
+contract(P + "DecayChain.bf", requires=CHAIN_INV,
+         ensures=["same(result, dget(self.decays, self.mother).bf)"], properties=["C12"])
+
+contract(P + "DecayChain.ndecays", requires=["typ(self.decays, 'dict')"],
+         ensures=["result == dlen(self.decays)"], returns="int", properties=["C12"])
